@@ -111,8 +111,7 @@ def run_program(rng, res, pid):
         res.fail({'program': pid, 'log': log}, 'C02: a program raised %s' % lib.exc_name(e), got=traceback.format_exc()[-500:])
 
 def saturation(rng, n_cases, res):
-    fx = lib.impl()
-    cases = []; reqs = []
+    gen = []
     for _ in range(n_cases):
         nw = rng.choice([1, 2, 4, 8, 16, 31, 32, 33, 48, 52, rng.randint(1, 52)]); s = rng.random() < 0.6; nf = rng.choice([0, 1, nw // 2, nw, nw + 3, rng.randint(0, nw + 8)])
         lo, hi = S.fmt_bounds(s, nw)
@@ -120,7 +119,14 @@ def saturation(rng, n_cases, res):
             v = rng.choice([1, -1]) * rng.choice([2.0 ** 53, 2.0 ** 62, 2.0 ** 63, 2.0 ** 64, 2.0 ** 65, 1e30, 1e100, 1.7e308, 2.0 ** 1023, float(hi) / 2.0 ** nf * 1.5 + 1, rng.uniform(1, 2) * 2.0 ** rng.randint(0, 1023)])
         else:
             v = rng.choice([1, -1]) * rng.choice([2 ** 62, 2 ** 63, 2 ** 63 - 1, 2 ** 64, 2 ** 64 - 1, 2 ** 65, 2 ** 100, 2 ** 1000, (hi >> max(nf, 0)) + 1 + rng.getrandbits(rng.randint(1, 200))])
-        c = {'s': s, 'nw': nw, 'nf': nf, 'r': rng.choice(RMODES), 'v': v, 'route': rng.choice(['ctor', 'call', 'set_val'])}
+        gen.append({'s': s, 'nw': nw, 'nf': nf, 'r': rng.choice(RMODES), 'v': v, 'route': rng.choice(['ctor', 'call', 'set_val'])})
+    run_sat_cases(gen, res)
+
+def run_sat_cases(gen, res):
+    fx = lib.impl()
+    cases = []; reqs = []
+    for c in gen:
+        c = dict(c); s, nw, nf, v = c['s'], c['nw'], c['nf'], c['v']
         try:
             if c['route'] == 'ctor': x = fx.Fxp(v, s, nw, nf, rounding=c['r'], overflow='saturate')
             else:
@@ -144,7 +150,10 @@ def saturation(rng, n_cases, res):
 
 def shard(shard, nshards, rng, tier, extra):
     res = Result()
-    for p in range((1200 if tier == 'quick' else 30000) // nshards): run_program(rng, res, (shard, p))
+    import random
+    for p in range((1200 if tier == 'quick' else 30000) // nshards):
+        pseed = rng.getrandbits(62)                   # every program has its own generator, so that it can be replayed alone
+        run_program(random.Random(pseed), res, pseed)
     saturation(rng, (2500 if tier == 'quick' else 60000) // nshards, res)
     return res
 
@@ -152,4 +161,11 @@ def run(seed, tier):
     return run_sharded('c02', 'shard', 16, seed, tier)
 def classify(fl): return None
 def replay(payload):
-    return {'holds': True, 'failures': [], 'note': 'programs are replayed by re-running ./check C02 with the same VERIF_SEED'}
+    import random
+    res = Result(); c = payload['case']
+    if 'program' in c: run_program(random.Random(c['program']), res, c['program'])
+    elif 'v' in c:
+        c = dict(c)
+        if isinstance(c['v'], str): c['v'] = float(c['v'])       # floats travel as their repr
+        run_sat_cases([c], res)
+    return {'holds': not res.failures, 'failures': res.failures}
